@@ -269,3 +269,361 @@ Proof.
   assert (Z.of_nat (Z.to_nat max_steps) >= max_steps - 0) as Hf by lia.
   specialize (H Hf). destruct H as [H1 [H2 H3]]. simpl. split; [lia|exact H3].
 Qed.
+
+(* ================================================================== every BM run refines its collect moments *)
+Lemma bm_mreps_NoDup p : NoDup (map fst (c_mreps (bm_cfg p))).
+Proof. simpl. repeat constructor; simpl; intuition lia. Qed.
+Lemma bm_tables_NoDup p : NoDup (map fst (c_tables (bm_cfg p))).
+Proof. simpl. constructor. Qed.
+
+Lemma bm_ok_at p w : ok_at (bm_cfg p) w = true.
+Proof.
+  unfold ok_at. apply andb_true_iff. split; [apply andb_true_iff; split|].
+  - reflexivity.
+  - unfold areps_ok. apply forallb_forall. intros a _. simpl. destruct (p_ar p); reflexivity.
+  - reflexivity.
+Qed.
+
+Definition has_kt (w : world) : Prop := amem 1 (w_attrs w) = true /\ amem 2 (w_attrs w) = true.
+
+Lemma amem_aset {V : Type} k k' (v : V) l : amem k l = true -> amem k (aset k' v l) = true.
+Proof.
+  unfold amem. intros H. destruct (Z.eq_dec k' k) as [->|Hne].
+  - rewrite aget_aset_same. reflexivity.
+  - rewrite (aget_aset_other k' k v l Hne). exact H.
+Qed.
+Lemma amem_aset_same {V : Type} k (v : V) l : amem k (aset k v l) = true.
+Proof. unfold amem. rewrite aget_aset_same. reflexivity. Qed.
+
+Lemma has_kt_attrs w w' : w_attrs w' = w_attrs w -> has_kt w -> has_kt w'.
+Proof. unfold has_kt. intros ->. tauto. Qed.
+
+Lemma wstep_create_attrs w c a : w_attrs (wstep w (Create c a)) = w_attrs w.
+Proof. unfold wstep. simpl. destruct (creatable c); reflexivity. Qed.
+Lemma wstep_remove_attrs w i : w_attrs (wstep w (Remove i)) = w_attrs w.
+Proof. unfold wstep. simpl. destruct (has_agent w i); reflexivity. Qed.
+
+Lemma bm_validate p w : has_kt w -> validate_all w (c_mreps (bm_cfg p)) = Ok tt.
+Proof. intros [H1 H2]. simpl. rewrite H1, H2. reflexivity. Qed.
+
+(* nondecreasing lists *)
+Fixpoint sortedZ (l : list Z) : Prop :=
+  match l with [] => True | x :: t => (forall y, In y t -> x <= y) /\ sortedZ t end.
+
+Lemma sortedZ_snoc l x : sortedZ l -> (forall y, In y l -> y <= x) -> sortedZ (l ++ [x]).
+Proof.
+  induction l as [|a t IH]; simpl; intros Hs Hb; [split; [tauto|exact I]|].
+  destruct Hs as [Ha Ht]. split.
+  - intros y Hy. apply in_app_iff in Hy. destruct Hy as [Hy|[Hy|[]]]; [apply Ha; exact Hy|].
+    subst. apply Hb. left. reflexivity.
+  - apply IH; [exact Ht|]. intros y Hy. apply Hb. right. exact Hy.
+Qed.
+
+Lemma sortedZ_last l v : sortedZ l -> last_opt l = Some v -> forall y, In y l -> y <= v.
+Proof.
+  induction l as [|a t IH]; simpl; [discriminate|].
+  intros [Ha Ht] Hl y Hy. destruct t as [|b t'].
+  - inversion Hl. subst. destruct Hy as [->|[]]. lia.
+  - destruct Hy as [->|Hy].
+    + apply Ha. apply last_opt_In. exact Hl.
+    + apply IH; assumption.
+Qed.
+
+Lemma dedup_acc_sorted seen l : sortedZ l -> sortedZ (dedup_acc Z.eqb seen l).
+Proof.
+  revert seen. induction l as [|a t IH]; intros seen; simpl; [tauto|].
+  intros [Ha Ht]. destruct (memb Z.eqb a seen); [apply IH; exact Ht|].
+  simpl. split; [|apply IH; exact Ht].
+  intros y Hy. apply (dedup_acc_In Z.eqb Z.eqb_eq) in Hy. apply Ha. tauto.
+Qed.
+
+(* on a nondecreasing list of collection steps, dict.fromkeys(...)[-1] is the step of the last collection *)
+Lemma last_dedup_sorted l : sortedZ l -> last_opt (dedup_first Z.eqb l) = last_opt l.
+Proof.
+  intros Hs. destruct (last_opt l) as [u|] eqn:Eu.
+  - assert (In u (dedup_first Z.eqb l)) as Hu.
+    { apply (dedup_first_In Z.eqb Z.eqb_eq). apply last_opt_In. exact Eu. }
+    destruct (last_opt (dedup_first Z.eqb l)) as [v|] eqn:Ev.
+    + f_equal. assert (sortedZ (dedup_first Z.eqb l)) as Hd by (apply dedup_acc_sorted; exact Hs).
+      pose proof (sortedZ_last _ v Hd Ev u Hu) as H1.
+      assert (In v l) as Hv by (apply (dedup_first_In Z.eqb Z.eqb_eq); apply last_opt_In; exact Ev).
+      pose proof (sortedZ_last _ u Hs Eu v Hv) as H2. lia.
+    + destruct (dedup_first Z.eqb l) as [|a t]; [contradiction|].
+      exfalso. clear -Ev. revert a Ev. induction t as [|b t' IH]; intros a Ev; simpl in Ev; [discriminate|].
+      apply (IH b). exact Ev.
+  - destruct l as [|a t]; [reflexivity|]. exfalso. clear -Eu. revert a Eu.
+    induction t as [|b t' IH]; intros a Eu; simpl in Eu; [discriminate|]. apply (IH b). exact Eu.
+Qed.
+
+Record bm_inv (p : params) (m : bm) : Prop := {
+  bi_ref : refines (bm_cfg p) (b_trace m) [] (b_d m);
+  bi_kt : has_kt (b_w m);
+  bi_bound : forall x, In x (map w_steps (b_trace m)) -> x <= w_steps (b_w m);
+  bi_sorted : sortedZ (map w_steps (b_trace m)) }.
+
+Lemma bm_collect_inv p m : bm_inv p m -> bm_inv p (bm_collect p m).
+Proof.
+  intros [Hr Hk Hb Hs].
+  destruct (collect_valid (bm_cfg p) (b_w m) (b_d m) (b_trace m) [] (bm_mreps_NoDup p) (bm_ok_at p (b_w m)) Hr)
+    as [d' [Ec [Rd _]]].
+  { rewrite (bm_validate p _ Hk). simpl. apply orb_true_r. }
+  constructor; simpl.
+  - rewrite Ec. exact Rd.
+  - exact Hk.
+  - intros x Hx. rewrite map_app in Hx. apply in_app_iff in Hx. destruct Hx as [Hx|[Hx|[]]]; [apply Hb; exact Hx|lia].
+  - rewrite map_app. simpl. apply sortedZ_snoc; assumption.
+Qed.
+
+Lemma bm_mutate_inv p m : bm_inv p m -> bm_inv p (bm_mutate m).
+Proof.
+  intros [Hr Hk Hb Hs]. constructor; simpl; try assumption.
+  destruct Hk as [H1 H2]. split; simpl; [apply amem_aset; exact H1|apply amem_aset_same].
+Qed.
+
+Lemma bm_collects_inv p c : forall m, bm_inv p m -> bm_inv p (bm_collects p c m).
+Proof.
+  induction c as [|j IH]; intros m H; simpl; [exact H|].
+  apply bm_collect_inv. destruct j; [apply IH; exact H|]. apply bm_mutate_inv. apply IH. exact H.
+Qed.
+
+Lemma bm_init_inv p : bm_inv p (bm_init p).
+Proof.
+  unfold bm_init. apply bm_collects_inv. constructor; simpl.
+  - apply refines_init.
+  - assert (forall n w, w_attrs (iter n (fun w0 => wstep w0 (Create 0 [(0, p_k p)])) w) = w_attrs w) as Hi.
+    { induction n as [|n IHn]; intros w; simpl; [reflexivity|]. rewrite IHn. apply wstep_create_attrs. }
+    eapply has_kt_attrs; [apply Hi|]. split; reflexivity.
+  - tauto.
+  - exact I.
+Qed.
+
+Lemma bm_step_inv p m : bm_inv p m -> bm_inv p (bm_step p m).
+Proof.
+  intros [Hr Hk Hb Hs]. unfold bm_step. apply bm_collects_inv.
+  set (w2 := inc_vals (wstep (b_w m) Step)).
+  assert (w_attrs w2 = w_attrs (b_w m)) as A2 by reflexivity.
+  assert (w_steps w2 = w_steps (b_w m) + 1) as E2 by reflexivity.
+  set (w3 := if p_churn p && (w_steps w2 mod 2 =? 1) then wstep w2 (Create 0 [(0, p_k p)]) else w2).
+  assert (w_attrs w3 = w_attrs w2 /\ w_steps w3 = w_steps w2) as [A3 E3].
+  { unfold w3. destruct (p_churn p && (w_steps w2 mod 2 =? 1));
+      [split; [apply wstep_create_attrs|apply wstep_create_steps]|split; reflexivity]. }
+  set (w4 := if p_churn p && (w_steps w3 mod 3 =? 0)
+             then match w_agents w3 with a :: _ => wstep w3 (Remove (a_id a)) | [] => w3 end else w3).
+  assert (w_attrs w4 = w_attrs w3 /\ w_steps w4 = w_steps w3) as [A4 E4].
+  { unfold w4. destruct (p_churn p && (w_steps w3 mod 3 =? 0)); [|split; reflexivity].
+    destruct (w_agents w3); [split; reflexivity|split; [apply wstep_remove_attrs|apply wstep_remove_steps]]. }
+  constructor; simpl.
+  - exact Hr.
+  - eapply has_kt_attrs; [|exact Hk]. rewrite A4, A3, A2. reflexivity.
+  - intros x Hx. specialize (Hb x Hx). lia.
+  - exact Hs.
+Qed.
+
+Lemma run_loop_inv p max_steps : forall fuel m, bm_inv p m -> bm_inv p (run_loop fuel p max_steps m).
+Proof.
+  induction fuel as [|f IH]; intros m H; simpl; [exact H|].
+  destruct (b_running m && (w_steps (b_w m) <? max_steps)); [|exact H]. apply IH. apply bm_step_inv. exact H.
+Qed.
+
+Lemma run_model_inv k max_steps : bm_inv (params_of k) (run_model k max_steps).
+Proof. unfold run_model. apply run_loop_inv. apply bm_init_inv. Qed.
+
+(* C13_alignment for every BM model: the moments are the worlds at which the script collected (b_trace) *)
+Lemma alignment_all_models k max_steps s :
+  let m := run_model k max_steps in
+  let cfg := bm_cfg (params_of k) in
+  d_csteps (b_d m) = map w_steps (b_trace m) /\
+  match last_at s (b_trace m) with
+  | Some w =>
+      In w (b_trace m) /\ w_steps w = s /\
+      model_data (b_d m) s = map (fun q => (fst q, mval_at w (snd q))) (c_mreps cfg) /\
+      (is_nil (c_areps cfg) = false ->
+       agent_data cfg (b_d m) s = map (fun a => (a_id a, combine (map fst (c_areps cfg))
+                                                         (map (fun q => aval_at w a (snd q)) (c_areps cfg))))
+                                      (w_agents w))
+  | None => ~ In s (d_csteps (b_d m)) /\ model_data (b_d m) s = [] /\ agent_data cfg (b_d m) s = []
+  end.
+Proof.
+  intros m cfg. pose proof (run_model_inv k max_steps) as [Hr _ _ _]. fold m in Hr. fold cfg in Hr.
+  split; [apply (r_csteps _ _ _ _ Hr)|].
+  pose proof (alignment cfg (b_trace m) [] (b_d m) s Hr) as Ha.
+  destruct (last_at s (b_trace m)) as [w|] eqn:E.
+  - destruct Ha as [H1 [H2 H3]]. split; [apply (last_at_In s _ w E)|]. tauto.
+  - split; [|exact Ha]. rewrite (r_csteps _ _ _ _ Hr). intros Hin. apply in_map_iff in Hin.
+    destruct Hin as [w [Hw1 Hw2]]. clear -E Hw1 Hw2. induction (b_trace m) as [|x t IH]; [contradiction|].
+    simpl in E. destruct (last_at s t); [discriminate|]. destruct Hw2 as [->|Hw2].
+    + rewrite Hw1 in E. rewrite Z.eqb_refl in E. discriminate.
+    + apply IH; [reflexivity|exact Hw2].
+Qed.
+
+(* the run's LAST collection (the last world of the trace) is among the reported steps, with >= 1 row *)
+Lemma last_state_reported_all_models k max_steps period w id it :
+  let m := run_model k max_steps in
+  last_opt (b_trace m) = Some w ->
+  In (w_steps w) (report_steps period (b_d m)) /\ last_at (w_steps w) (b_trace m) = Some w /\
+  step_rows (bm_cfg (params_of k)) (b_d m) id it k (w_steps w) <> [].
+Proof.
+  intros m Hl. pose proof (run_model_inv k max_steps) as [Hr _ _ Hs]. fold m in Hr, Hs.
+  assert (last_opt (d_csteps (b_d m)) = Some (w_steps w)) as Hc.
+  { rewrite (r_csteps _ _ _ _ Hr). clear -Hl. induction (b_trace m) as [|x t IH]; [discriminate|].
+    destruct t as [|y t']; [inversion Hl; reflexivity|]. simpl in *. apply IH. exact Hl. }
+  split; [|split; [|apply step_rows_nonempty]].
+  - apply (last_reported period (b_d m) (w_steps w)).
+    rewrite last_dedup_sorted; [exact Hc|]. rewrite (r_csteps _ _ _ _ Hr). exact Hs.
+  - clear -Hl. induction (b_trace m) as [|x t IH]; [discriminate|].
+    destruct t as [|y t'].
+    + inversion Hl. subst. simpl. rewrite Z.eqb_refl. reflexivity.
+    + change (last_at (w_steps w) (x :: y :: t')) with
+        (match last_at (w_steps w) (y :: t') with Some z => Some z | None => if w_steps x =? w_steps w then Some x else None end).
+      rewrite IH; [reflexivity|exact Hl].
+Qed.
+
+(* ================================================================== batch_run = running by hand *)
+(* the number of step() calls: until the model stops (running = False is set inside the step at which
+   steps >= stop; the first step always runs) or max_steps is reached *)
+Definition steps_target (p : params) (max_steps : Z) : Z :=
+  match p_stop p with
+  | None => Z.max 0 max_steps
+  | Some s => Z.min (Z.max 0 max_steps) (Z.max 1 s)
+  end.
+(* construct the model with the kwargs, call step() that many times *)
+Definition run_by_hand (k : kw) (max_steps : Z) : bm :=
+  iter (Z.to_nat (steps_target (params_of k) max_steps)) (bm_step (params_of k)) (bm_init (params_of k)).
+
+Lemma bm_step_running p m :
+  b_running (bm_step p m) =
+  match p_stop p with
+  | Some s => if s <=? w_steps (b_w m) + 1 then false else b_running m
+  | None => b_running m
+  end.
+Proof.
+  unfold bm_step. rewrite bm_collects_running. cbn [b_running].
+  set (w2 := inc_vals (wstep (b_w m) Step)).
+  assert (w_steps w2 = w_steps (b_w m) + 1) as E2 by reflexivity.
+  set (w3 := if p_churn p && (w_steps w2 mod 2 =? 1) then wstep w2 (Create 0 [(0, p_k p)]) else w2).
+  assert (w_steps w3 = w_steps w2) as E3.
+  { unfold w3. destruct (p_churn p && (w_steps w2 mod 2 =? 1)); [apply wstep_create_steps|reflexivity]. }
+  set (w4 := if p_churn p && (w_steps w3 mod 3 =? 0)
+             then match w_agents w3 with a :: _ => wstep w3 (Remove (a_id a)) | [] => w3 end else w3).
+  assert (w_steps w4 = w_steps w3) as E4.
+  { unfold w4. destruct (p_churn p && (w_steps w3 mod 3 =? 0)); [|reflexivity].
+    destruct (w_agents w3); [reflexivity|apply wstep_remove_steps]. }
+  rewrite E4, E3, E2. reflexivity.
+Qed.
+
+Definition run_inv (p : params) (m : bm) : Prop :=
+  0 <= w_steps (b_w m) /\
+  b_running m = match p_stop p with
+                | Some s => negb ((s <=? w_steps (b_w m)) && (1 <=? w_steps (b_w m)))
+                | None => true
+                end.
+
+Lemma run_inv_init p : run_inv p (bm_init p).
+Proof.
+  unfold run_inv. rewrite bm_init_steps. split; [lia|].
+  unfold bm_init. rewrite bm_collects_running. cbn [b_running].
+  destruct (p_stop p); [|reflexivity]. rewrite andb_false_r. reflexivity.
+Qed.
+
+Lemma run_inv_step p m : run_inv p m -> run_inv p (bm_step p m).
+Proof.
+  intros [H0 Hr]. unfold run_inv. rewrite bm_step_steps, bm_step_running. split; [lia|].
+  destruct (p_stop p) as [s|]; [|exact Hr].
+  destruct (s <=? w_steps (b_w m) + 1) eqn:E.
+  - assert (1 <=? w_steps (b_w m) + 1 = true) as -> by (apply Z.leb_le; lia). reflexivity.
+  - rewrite Hr. apply Z.leb_gt in E.
+    assert (s <=? w_steps (b_w m) = false) as -> by (apply Z.leb_gt; lia). reflexivity.
+Qed.
+
+Lemma iter_S {A : Type} n (f : A -> A) x : iter (S n) f x = iter n f (f x).
+Proof. reflexivity. Qed.
+
+Lemma run_loop_iter p max_steps : forall fuel m,
+  run_inv p m -> w_steps (b_w m) <= steps_target p max_steps ->
+  Z.of_nat fuel >= steps_target p max_steps - w_steps (b_w m) ->
+  run_loop fuel p max_steps m = iter (Z.to_nat (steps_target p max_steps - w_steps (b_w m))) (bm_step p) m.
+Proof.
+  induction fuel as [|f IH]; intros m [H0 Hr] Hle Hf.
+  - simpl. replace (steps_target p max_steps - w_steps (b_w m)) with 0 by lia. reflexivity.
+  - simpl. destruct (Z.eq_dec (w_steps (b_w m)) (steps_target p max_steps)) as [Heq|Hne].
+    + (* at the target: the loop exits *)
+      replace (steps_target p max_steps - w_steps (b_w m)) with 0 by lia. simpl.
+      assert (b_running m && (w_steps (b_w m) <? max_steps) = false) as ->; [|reflexivity].
+      unfold steps_target in Heq. rewrite Hr. destruct (p_stop p) as [s|].
+      * destruct (w_steps (b_w m) <? max_steps) eqn:El; [|apply andb_false_r].
+        apply Z.ltb_lt in El. rewrite andb_true_r.
+        assert (s <=? w_steps (b_w m) = true) as -> by (apply Z.leb_le; lia).
+        assert (1 <=? w_steps (b_w m) = true) as -> by (apply Z.leb_le; lia). reflexivity.
+      * simpl. apply Z.ltb_ge. lia.
+    + (* below the target: one more step *)
+      assert (b_running m && (w_steps (b_w m) <? max_steps) = true) as ->.
+      { unfold steps_target in Hle, Hne. rewrite Hr. apply andb_true_iff. destruct (p_stop p) as [s|].
+        - split; [|apply Z.ltb_lt; lia].
+          destruct (1 <=? w_steps (b_w m)) eqn:E1; [|rewrite andb_false_r; reflexivity].
+          apply Z.leb_le in E1. assert (s <=? w_steps (b_w m) = false) as -> by (apply Z.leb_gt; lia). reflexivity.
+        - split; [reflexivity|apply Z.ltb_lt; lia]. }
+      rewrite (IH (bm_step p m)); [|apply run_inv_step; split; assumption|rewrite bm_step_steps; lia|rewrite bm_step_steps; lia].
+      rewrite bm_step_steps.
+      replace (Z.to_nat (steps_target p max_steps - w_steps (b_w m)))
+        with (S (Z.to_nat (steps_target p max_steps - (w_steps (b_w m) + 1)))) by lia.
+      reflexivity.
+Qed.
+
+(* the while loop of _model_run_func = constructing the model and stepping it by hand *)
+Lemma run_model_by_hand k max_steps : run_model k max_steps = run_by_hand k max_steps.
+Proof.
+  unfold run_model, run_by_hand.
+  pose proof (run_loop_iter (params_of k) max_steps (Z.to_nat max_steps) (bm_init (params_of k))
+                (run_inv_init _)) as H.
+  rewrite bm_init_steps in H. rewrite Z.sub_0_r in H. apply H.
+  - unfold steps_target. destruct (p_stop (params_of k)); lia.
+  - unfold steps_target. destruct (p_stop (params_of k)); lia.
+Qed.
+
+Lemma iter_steps p n : forall m, w_steps (b_w (iter n (bm_step p) m)) = w_steps (b_w m) + Z.of_nat n.
+Proof.
+  induction n as [|n IH]; intros m; [simpl; lia|]. rewrite iter_S, IH, bm_step_steps. lia.
+Qed.
+
+(* steps taken = min(max_steps, stop) (at least one step is taken before a stop is noticed) *)
+Lemma steps_taken k max_steps :
+  w_steps (b_w (run_model k max_steps)) = steps_target (params_of k) max_steps.
+Proof.
+  rewrite run_model_by_hand. unfold run_by_hand. rewrite iter_steps, bm_init_steps.
+  unfold steps_target. destruct (p_stop (params_of k)); lia.
+Qed.
+
+Definition rows_by_hand (max_steps period : Z) (r : run) : list brow :=
+  rows_of period r (run_by_hand (snd r) max_steps).
+
+Lemma eq_by_hand max_steps period runs runs' :
+  Permutation runs' runs ->
+  Permutation (batch_rows max_steps period runs') (flat_map (rows_by_hand max_steps period) runs).
+Proof.
+  intros H. apply (Permutation_trans (order_irrelevant max_steps period runs runs' H)).
+  unfold batch_rows. rewrite (flat_map_ext (run_rows max_steps period) (rows_by_hand max_steps period)); [apply Permutation_refl|].
+  intros r. unfold run_rows, rows_by_hand. rewrite run_model_by_hand. reflexivity.
+Qed.
+
+(* values[positions[-1]] of _collect_data is always in range: every model_vars list is exactly as long
+   as _collection_steps, and positions[-1] indexes into _collection_steps *)
+Lemma last_pos_lt s cs i : last_pos s cs = Some i -> (i < length cs)%nat.
+Proof.
+  revert i. induction cs as [|c t IH]; intros i; simpl; [discriminate|].
+  destruct (last_pos s t) as [j|].
+  - intros H. inversion H. subst. specialize (IH j eq_refl). lia.
+  - destruct (c =? s); [|discriminate]. intros H. inversion H. lia.
+Qed.
+
+Lemma no_index_error k max_steps :
+  let d := b_d (run_model k max_steps) in
+  (forall n vals, In (n, vals) (d_mvars d) -> length vals = length (d_csteps d)) /\
+  (forall s i, last_pos s (d_csteps d) = Some i -> forall n vals, In (n, vals) (d_mvars d) -> (i < length vals)%nat).
+Proof.
+  intros d. pose proof (run_model_inv k max_steps) as [Hr _ _ _]. fold d in Hr.
+  assert (forall n vals, In (n, vals) (d_mvars d) -> length vals = length (d_csteps d)) as H.
+  { intros n vals Hin. rewrite (r_mvars _ _ _ _ Hr) in Hin. rewrite (r_csteps _ _ _ _ Hr).
+    unfold mvars_of in Hin. apply in_map_iff in Hin. destruct Hin as [q [Hq _]]. inversion Hq.
+    rewrite !map_length. reflexivity. }
+  split; [exact H|]. intros s i Hi n vals Hin. rewrite (H n vals Hin). apply (last_pos_lt s _ i Hi).
+Qed.
